@@ -1706,7 +1706,7 @@ def h_unique(func, args, kwargs):
     b = bind(args, kwargs, ['input', 'sorted', 'return_inverse', 'return_counts', 'dim'],
              {'sorted': True, 'return_inverse': False, 'return_counts': False, 'dim': None})
     x = b['input']
-    if b['dim'] is not None:
+    if b['dim'] is not None and not (x._ids.dim() == 1 and b['dim'] in (0, -1)):
         raise UnsupportedOp('unique dim')
     t = cur()
     d = t.dag
